@@ -25,6 +25,6 @@ def run(c):
     return c["property_id"], p.returncode, round(time.time() - t, 1), val, lines, out[-600:] if p.returncode not in (0,) else ""
 with ThreadPoolExecutor(j) as ex:
     for pid, rc, wall, val, lines, tail in ex.map(run, checks):
-        print("%s exit=%d wall=%.0fs evidence=%s" % (pid, rc, wall, val))
+        print("%s exit=%d wall=%.0fs evidence=%s" % (pid, rc, wall, val), flush=True)
         for l in lines: print("    " + l[:220])
         if tail: print("    ..." + tail.replace("\n", "\n    "))
